@@ -43,7 +43,7 @@ def main(tier, replay=None):
     if exe is None:
         return c.finish(TRUSTED, no_input_break="extraction/OCaml build of the Import/Remove model failed: " + err[-1500:])
 
-    n, nlong = (220, 6) if tier == "quick" else (5000, 120)
+    n, nlong = (220, 6) if tier == "quick" else (2400, 60)
     impl = os.path.join(c.workdir, "impl.txt")
     stats = ""
     if replay:
@@ -78,7 +78,8 @@ def main(tier, replay=None):
     if rc != 0:
         return c.finish(TRUSTED, no_input_break="model driver failed: " + me[-1500:])
     hist = C08.split_histories(impl)
-    st, bad = C08.evaluate(c, mo, hist, exe)
+    rc, mord, me = V.sh("%s %d %d order < %s" % (exe, batch, cap, impl), timeout=3000)
+    st, bad = C08.evaluate(c, mo, hist, exe, C08.p_lines(mord) if rc == 0 else None)
 
     # the witness of C07_import_abandoned_refuted: on the directed scenario the model of the code AS FOUND
     # must drop the import task
